@@ -3,6 +3,13 @@
 set -e
 cd "$(dirname "$0")/lean"
 python3 gen_dispatch.py
-lake build rvdriver RallyModel RallyProofs RallyProps 2>&1 | tail -5
+# the build's own exit status decides (a pipe into tail would hide it)
+if lake build rvdriver RallyModel RallyProofs RallyProps > .setup.log 2>&1; then
+  tail -3 .setup.log
+else
+  grep -v '^✔\|^ℹ' .setup.log | tail -40
+  echo "setup FAILED: lake build" >&2
+  exit 1
+fi
 echo '{"m":"ping","op":"x","a":null}' | .lake/build/bin/rvdriver | grep -q pong
 echo "setup ok"
